@@ -87,13 +87,13 @@ Prog(s, x, op, p) ==
                              I("lock", "span", 0), I("snap", "", 0), I("unlock", "span", 0), I("onend", "", 1)>>
                         \o UserIf(s, x, "proc.OnEnd") \o <<I("onend", "", 2)>> \o Ret
     [] op = "Child"  -> <<I("lock", "span", 0), I("incr", "", 0), I("unlock", "span", 0)>> \o UserIf(s, x, "idgen")
-                        \o UserIf(s, x, "sampler") \o UserIf(s, x, "proc.OnStart") \o Ret
+                        \o UserIf(s, x, "sampler") \o <<I("getprocs", "", 0)>> \o UserIf(s, x, "proc.OnStart") \o Ret
     [] op = "Reg"    -> <<I("precheck", "", 0), I("lockd", "prov", 0), I("downcheck", "", 0), I("store", "", 0)>> \o Ret
     [] op = "SD"     -> <<I("precheck", "", 0), LockI(SDRel, "prov"), I("cas", "", 0)>> \o UserIf(s, x, "proc.Shutdown")
                         \o <<I("clear", "", 0)>> \o UnlockI(SDRel, "prov") \o Ret
     [] op = "Unreg"  -> <<I("precheck", "", 0), LockI(UnregRel, "prov"), I("downcheck", "", 0)>>
                         \o UserIf(s, x, "proc.Shutdown.unreg") \o <<I("remove", "", 0)>> \o UnlockI(UnregRel, "prov") \o Ret
-    [] OTHER         -> UserIf(s, x, "proc.ForceFlush") \o Ret
+    [] OTHER         -> <<I("getprocs", "", 0)>> \o UserIf(s, x, "proc.ForceFlush") \o Ret
 
 Scenarios == {s \in [gate : Gates, out : Outs, hdefer : Defers, op1 : Ops1, ph1 : Phases1, op2 : Ops2] :
                 s.gate = "panic.Format" => s.hdefer}
@@ -163,6 +163,8 @@ Step(x) ==
        [] c.i \in {"apply", "read", "incr", "snap", "store"} ->
             Next1(x) /\ UNCHANGED <<ended, down, plist, handed, eprocs, mon>>
        [] c.i = "mark" -> Next1(x) /\ ended' = TRUE /\ UNCHANGED <<down, plist, handed, eprocs, mon>>
+       [] c.i = "getprocs" ->      \* Start / ForceFlush read the processor list (atomic pointer) before the fan-out
+            Next1(x) /\ eprocs' = [eprocs EXCEPT ![x] = plist] /\ UNCHANGED <<ended, down, plist, handed, mon>>
        [] c.i = "procs" ->
             /\ eprocs' = [eprocs EXCEPT ![x] = plist]
             /\ IF plist = {} THEN (EndCall(x, FALSE, FALSE) /\ mon' = [mon EXCEPT !.endDone = TRUE])
@@ -178,7 +180,7 @@ Step(x) ==
        [] c.i = "user" ->
             (* the user code runs once; the driver lets it finish only after the "during" call has been made *)
             /\ (scn.ph1 = "during" /\ ~mon.used) => st["c1"] # "idle"
-            /\ IF mon.used \/ (c.a = "proc.OnEnd" /\ 1 \notin eprocs[x])
+            /\ IF mon.used \/ (c.a \in {"proc.OnEnd", "proc.OnStart", "proc.ForceFlush"} /\ 1 \notin eprocs[x])
                  THEN (Next1(x) /\ UNCHANGED mon)
                  ELSE IF scn.out = "ok" \/ (c.a = "panic.Format" /\ PanicFmt = "caught")
                  THEN (Next1(x) /\ mon' = [mon EXCEPT !.used = TRUE, !.upanic = (scn.out = "panic")])
